@@ -64,10 +64,12 @@ package logging
 //@   props C14 C20
 //@   safety
 //@   ensures (err == nil) <==> (p != nil)
+//@   ensures authenticated-bytes-are-the-text-before-the-integrity-field: err == nil ==> len(p.RawData) + len(DataSplitToken) <= len(rawData) && forall(i, 0, len(p.RawData), p.RawData[i] == rawData[i]) && forall(j, 0, len(DataSplitToken), rawData[len(p.RawData) + j] == DataSplitToken[j])
 //@   at call strings.Split : assert arg[0] == rawData && arg[1] == DataSplitToken
 
 //@ func (parser *PlaintextLogParser) ParseEntry(rawData string) (p *ParsedLogEntry, err error)
 //@   props C14 C20
 //@   safety
 //@   ensures (err == nil) <==> (p != nil)
+//@   ensures authenticated-bytes-are-the-text-before-the-integrity-field: err == nil ==> len(p.RawData) + len(DataSplitToken) <= len(rawData) && forall(i, 0, len(p.RawData), p.RawData[i] == rawData[i]) && forall(j, 0, len(DataSplitToken), rawData[len(p.RawData) + j] == DataSplitToken[j])
 //@   at call strings.Split : assert arg[0] == rawData && arg[1] == DataSplitToken
